@@ -21,10 +21,10 @@ LEVEL_TEXT = ('"Eventually" is restated as bounded progress in virtual time: aft
 LEVEL_NOTE = ('Escalated API failures are excluded here (C12). The essence is computed independently for spec/labels/annotations bodies. Known finding: an essential '
               'change that lands mid-cycle after a sibling handler already finished is absorbed into the last-handled state without that handler seeing it.')
 RULE = ("histories: 1-2 objects, 0-6 external changes at random and cycle-aligned instants, 0-2 restarts with downtime (edits may fall into it), optional kill at a "
-        "random write (before/after it is applied) with automatic restart, optional pause by a higher-priority peer, optional worker_limit=1, optional daemons; non-trivial = a change during downtime, a kill, or >=2 essential changes; distinct = hash of "
+        "random write (before/after it is applied) with automatic restart, optional pause by a higher-priority peer, optional worker_limit=1, optional daemons, optional watch-stream breaks (resume or re-listing); non-trivial = a change during downtime, a kill, or >=2 essential changes; distinct = hash of "
         "(handler ids+outcomes sequence, incarnations)")
 ASSUMPTIONS = ["fake API server semantics", "watch echo lag below the consistency timeout", "quiescence window > max scripted delay + consistency timeout + idle timeout"]
-GATES = {'quiescent_runs': 50, 'downtime_edit_runs': 5, 'kill_runs': 5, 'objects_checked': 50, 'accumulated_change_checks': 3, 'paused_runs': 10, 'worker_limited_runs': 10}
+GATES = {'quiescent_runs': 50, 'downtime_edit_runs': 5, 'kill_runs': 5, 'objects_checked': 50, 'accumulated_change_checks': 3, 'paused_runs': 10, 'worker_limited_runs': 10, 'stream_break_runs': 10}
 
 
 def directed() -> list[dict[str, Any]]:
@@ -98,6 +98,18 @@ def gen_cases(tier: str, seed: int):
             t1 = round(rng.uniform(min(ts) + 0.5, max(ts) + 2.0), 3)
             t2 = round(t1 + rng.choice([0.3, 2.0, 7.0]), 3)
             d['timeline'] = sorted(d['timeline'] + [[t1, 'peer', 'boss', 100, 60], [t2, 'unpeer', 'boss']], key=lambda x: x[0])
+        if rng.random() < 0.25:
+            # the watch stream breaks (and is resumed or re-listed) somewhere in the history: what was in progress goes on, what changed meanwhile is caught up
+            ts = [op[0] for op in d['timeline']]
+            extra: list[list[Any]] = []
+            for _ in range(rng.randint(1, 3)):
+                tb = round(rng.uniform(min(ts) + 0.2, max(ts) + 3.0), 3)
+                kind = rng.choice(['eof', 'conn', '410', 'timeout', 'payload'])
+                if kind == '410' or rng.random() < 0.3:
+                    extra.append([tb, 'compact'])
+                extra.append([round(tb + 0.001, 3), 'break', kind])
+            d['timeline'] = sorted(d['timeline'] + extra, key=lambda x: x[0])
+            d.setdefault('settings', {})['watching__reconnect_backoff'] = rng.choice([0.1, 1.0])
         cases.append({'name': f'rnd{i}', 'desc': d})
     return cases
 
@@ -180,6 +192,7 @@ def run_case(case: dict[str, Any]) -> dict[str, Any]:
     cov['downtime_edit_runs'] = int(edits_in_down > 0)
     cov['accumulated_change_checks'] = acc
     cov['paused_runs'] = int(any(e['k'] == 'note' and e['what'] == 'toggle' and e.get('to') is True for e in w.events))
+    cov['stream_break_runs'] = int(any(op[1] == 'break' for op in desc['timeline']))
     cov['worker_limited_runs'] = int(bool((desc.get('settings') or {}).get('queueing__worker_limit')))
     changing = [c for c in ix.calls if c['kind'] in CHANGING]
     incs = sorted({c['inc'] for c in changing})
